@@ -17,13 +17,13 @@ Open Scope Z_scope.
     above the cursor.  It holds for a new group and is preserved by every operation the
     property lists: ">"-reads, XACK, XCLAIM, DELCONSUMER, CREATECONSUMER (DESTROY drops the
     record), with stream entries added, deleted or trimmed in between. *)
-Theorem c16_agree_new : GInv new_group.
-Proof. exact GInv_new. Qed.
+Theorem c16_agree_new : forall start, GInv (mk_group start).
+Proof. exact GInv_mk. Qed.
 
 Theorem c16_agree_read :
-  forall now s g c count, SInv s -> GInv g ->
-  GInv (snd (st_read_group now s g c sid_max count false)).
-Proof. intros now s g c count Hs Hg. apply (read_new_inv now s g c count Hs Hg). Qed.
+  forall now s g c count noack, SInv s -> GInv g ->
+  GInv (snd (st_read_group now s g c sid_max count noack)).
+Proof. intros now s g c count noack Hs Hg. apply (read_new_inv now s g c count noack Hs Hg). Qed.
 
 Theorem c16_agree_ack : forall g ids, GInv g -> GInv (snd (g_acknowledge g ids)).
 Proof. intros g ids Hg. apply (acknowledge_inv g ids Hg). Qed.
@@ -43,7 +43,7 @@ Proof. exact create_consumer_ginv. Qed.
     only the record of the group it names; so all groups of a stream satisfy the
     invariant along every history. *)
 Theorem c16_admin_create :
-  forall gs gn, groups_ok gs -> alookup gn gs = None -> groups_ok (gs ++ [(gn, new_group)]).
+  forall gs gn start, groups_ok gs -> alookup gn gs = None -> groups_ok (gs ++ [(gn, mk_group start)]).
 Proof. exact groups_ok_create. Qed.
 Theorem c16_admin_destroy :
   forall gs gn, groups_ok gs -> groups_ok (aremove gn gs) /\ alookup gn (aremove gn gs) = None /\
@@ -73,17 +73,30 @@ Theorem c16_exactly_once :
   match grun s g ops with (s2, g2, log) => step_facts s g s2 g2 log end.
 Proof. exact group_history. Qed.
 
+(** ... in particular for a group created at any start position not ahead of the stream
+    ("$" = the last present entry, 0, or an explicit ID; after the repair 542e5a3 the
+    cursor starts there): nothing at or below the start position is ever delivered, and
+    NOACK reads (after the repair 18325a2) take part in the same strictly increasing log. *)
+Theorem c16_exactly_once_any_start :
+  forall ops s start, SInv s -> sid_le start (s_last s) -> Forall gop_ok ops ->
+  match grun s (mk_group start) ops with (s2, g2, log) => step_facts s (mk_group start) s2 g2 log end.
+Proof. intros ops s start Hs Hle Hok. apply group_history; [assumption|apply GInv_mk|exact Hle|assumption]. Qed.
+Theorem c16_dollar_start_not_ahead :
+  forall s i, SInv s -> last_entry_id s = Some i -> sid_le i (s_last s).
+Proof. exact last_entry_le_last. Qed.
+
 (** one ">"-read returns the first COUNT present entries above the cursor, in ID order,
-    moves the cursor to the last of them and makes the reader their owner *)
+    moves the cursor to the last of them and (unless NOACK) makes the reader their owner *)
 Theorem c16_read_new :
-  forall now s g c count, SInv s -> GInv g ->
-  let r := st_read_group now s g c sid_max count false in
+  forall now s g c count noack, SInv s -> GInv g ->
+  let r := st_read_group now s g c sid_max count noack in
   fst r = take_count count (filter (p_gt (g_last g)) (s_entries s)) /\
   GInv (snd r) /\
   sorted (fst r) /\ Forall (fun e => sid_lt (g_last g) (fst e)) (fst r) /\
   (fst r = [] -> snd r = g) /\
   (forall e rest, rev (fst r) = e :: rest -> g_last (snd r) = fst e) /\
-  (forall id, owner (g_by_id (snd r)) id = if sid_mem id (map fst (fst r)) then Some c else owner (g_by_id g) id).
+  (forall id, owner (g_by_id (snd r)) id =
+              if negb noack && sid_mem id (map fst (fst r)) then Some c else owner (g_by_id g) id).
 Proof. exact read_new_inv. Qed.
 
 (** XACK answers the number of listed IDs that were pending, each counted once; exactly
@@ -138,22 +151,25 @@ Proof. exact delete_consumer_inv. Qed.
 Local Open Scope string_scope.
 Definition entry1 (id a b : String.string) : frame := FArray [bulk id; FArray [bulk a; bulk b]].
 
-(** F-16a, class group-start-ignored: the start ID of XGROUP CREATE ("$" or any ID) is
-    never used, the cursor starts at 0-0 and ">" delivers the old entries *)
-Example c16_dollar_start_refuted :
+(** formerly F-16a (class group-start-ignored, fixed by 542e5a3): a group created with "$"
+    is not delivered the old entries, only later ones *)
+Example c16_dollar_start_witness :
   fst (run_cmds 0 empty_db [cmd ["XADD"; "s"; "5-0"; "a"; "1"]; cmd ["XGROUP"; "CREATE"; "s"; "g"; "$"];
+                            cmd ["XREADGROUP"; "GROUP"; "g"; "c1"; "STREAMS"; "s"; ">"];
+                            cmd ["XADD"; "s"; "6-0"; "a"; "2"];
                             cmd ["XREADGROUP"; "GROUP"; "g"; "c1"; "STREAMS"; "s"; ">"]])
-  = [bulk "5-0"; r_ok; FArray [FArray [bulk "s"; FArray [entry1 "5-0" "a" "1"]]]].
+  = [bulk "5-0"; r_ok; FArray []; bulk "6-0"; FArray [FArray [bulk "s"; FArray [entry1 "6-0" "a" "2"]]]].
 Proof. vm_compute. reflexivity. Qed.
 
-(** F-16b, class noack-no-advance: a NOACK read does not move the cursor: the same entry
-    is delivered again *)
-Example c16_noack_refuted :
+(** formerly F-16b (class noack-no-advance, fixed by 18325a2): a NOACK read consumes the
+    entries (nothing becomes pending) *)
+Example c16_noack_witness :
   fst (run_cmds 0 empty_db [cmd ["XADD"; "s"; "5-0"; "a"; "1"]; cmd ["XGROUP"; "CREATE"; "s"; "g"; "0"];
                             cmd ["XREADGROUP"; "GROUP"; "g"; "c1"; "NOACK"; "STREAMS"; "s"; ">"];
-                            cmd ["XREADGROUP"; "GROUP"; "g"; "c2"; "NOACK"; "STREAMS"; "s"; ">"]])
-  = [bulk "5-0"; r_ok; FArray [FArray [bulk "s"; FArray [entry1 "5-0" "a" "1"]]];
-     FArray [FArray [bulk "s"; FArray [entry1 "5-0" "a" "1"]]]].
+                            cmd ["XREADGROUP"; "GROUP"; "g"; "c2"; "NOACK"; "STREAMS"; "s"; ">"];
+                            cmd ["XPENDING"; "s"; "g"]])
+  = [bulk "5-0"; r_ok; FArray [FArray [bulk "s"; FArray [entry1 "5-0" "a" "1"]]]; FArray [];
+     FArray [FInt 0; FNullBulk; FNullBulk; FArray []]].
 Proof. vm_compute. reflexivity. Qed.
 
 (** F-16c, class explicit-id-reread: a read with an explicit ID returns stream entries
@@ -177,7 +193,7 @@ Proof.
   assert (Hs : SInv s).
   { split; cbn; [constructor; constructor|constructor; [right; reflexivity|constructor]|reflexivity|reflexivity]. }
   exists s, (snd (st_read_group 0 s new_group (bs "c1") sid_max None false)).
-  split; [exact Hs|]. split; [apply (read_new_inv 0 s new_group (bs "c1") None Hs GInv_new)|].
+  split; [exact Hs|]. split; [apply (read_new_inv 0 s new_group (bs "c1") None false Hs GInv_new)|].
   intros H. pose proof (gi_total _ _ _ _ H) as Ht. vm_compute in Ht. discriminate.
 Qed.
 
@@ -194,13 +210,16 @@ Example c16_setid_redelivery_refuted :
      FArray [FInt 1; bulk "5-0"; bulk "5-0"; FArray [FArray [bulk "c1"; FInt 1]; FArray [bulk "c2"; FInt 1]]]].
 Proof. vm_compute. reflexivity. Qed.
 
-(** new finding, class xpending-inverted-range: extended XPENDING with start > end and no
-    consumer makes BTreeMap::range panic; the server process exits (model outcome PANIC) *)
-Example c16_xpending_inverted_range_refuted :
+(** formerly class xpending-inverted-range (fixed by 8b811fd): an inverted range selects
+    nothing; XPENDING is total *)
+Theorem c16_xpending_range_total : forall l st en, sid_lt en st -> pel_range l st en = [].
+Proof. exact pel_range_inverted. Qed.
+Example c16_xpending_inverted_range_witness :
   fst (run_cmds 0 empty_db [cmd ["XADD"; "s"; "5-0"; "a"; "1"]; cmd ["XGROUP"; "CREATE"; "s"; "g"; "0"];
                             cmd ["XREADGROUP"; "GROUP"; "g"; "c1"; "STREAMS"; "s"; ">"];
-                            cmd ["XPENDING"; "s"; "g"; "7-0"; "5-0"; "10"]])
-  = [bulk "5-0"; r_ok; FArray [FArray [bulk "s"; FArray [entry1 "5-0" "a" "1"]]]; r_panic].
+                            cmd ["XPENDING"; "s"; "g"; "7-0"; "5-0"; "10"]; cmd ["XPENDING"; "s"; "g"]])
+  = [bulk "5-0"; r_ok; FArray [FArray [bulk "s"; FArray [entry1 "5-0" "a" "1"]]]; FArray [];
+     FArray [FInt 1; bulk "5-0"; bulk "5-0"; FArray [FArray [bulk "c1"; FInt 1]]]].
 Proof. vm_compute. reflexivity. Qed.
 
 (** new finding, class xreadgroup-partial-failure: a multi-key XREADGROUP that fails on a
@@ -216,23 +235,25 @@ Example c16_partial_failure_refuted :
      FArray [FInt 1; bulk "1-0"; bulk "1-0"; FArray [FArray [bulk "c1"; FInt 1]]]; FArray []].
 Proof. vm_compute. reflexivity. Qed.
 
-(** new finding, class xgroup-create-error-effect: XGROUP CREATE ... MKSTREAM with an
-    invalid ID answers an error but has already created the stream *)
-Example c16_create_error_creates_stream_refuted :
+(** formerly class xgroup-create-error-effect (fixed by 7f9490b): a refused XGROUP CREATE
+    has no effect (beyond the lazy removal of an expired key by storage.get) *)
+Theorem c16_xgroup_create_error_no_effect :
+  forall now d parts, is_error (fst (h_xgroup_create now d parts)) = true ->
+  snd (h_xgroup_create now d parts) = d \/
+  exists k, nth_arg parts 2 = Some k /\ snd (h_xgroup_create now d parts) = snd (eng_get now d k).
+Proof. exact xgroup_create_error_atomic. Qed.
+Example c16_create_error_witness :
   fst (run_cmds 0 empty_db [cmd ["XGROUP"; "CREATE"; "s"; "g"; "abc"; "MKSTREAM"]; cmd ["XLEN"; "s"];
                             cmd ["XINFO"; "STREAM"; "s"]])
-  = [r_err; FInt 0;
-     FArray [bulk "length"; FInt 0; bulk "radix-tree-keys"; FInt 1; bulk "radix-tree-nodes"; FInt 2;
-             bulk "last-generated-id"; bulk "0-0"; bulk "groups"; FInt 0; bulk "first-entry"; FNullArray;
-             bulk "last-entry"; FNullArray]].
+  = [r_err; FInt 0; r_err].
 Proof. vm_compute. reflexivity. Qed.
 
 (** ---- non-vacuity: a history through the theorem's step function ---- *)
 Example c16_history_example :
   let ops := [GStream (OAddId (1, 0) []); GStream (OAddId (2, 0) []); GStream (OAddId (3, 0) []);
-              GRead 0 (bs "c1") (Some 2); GRead 1 (bs "c2") None; GAck [(1, 0); (1, 0); (9, 9)];
+              GRead 0 (bs "c1") (Some 2) false; GRead 1 (bs "c2") None false; GAck [(1, 0); (1, 0); (9, 9)];
               GClaim 5 (bs "c2") 0 [(2, 0)] false; GStream (ODel [(3, 0)]); GStream (OAddAuto 7 []);
-              GRead 9 (bs "c1") None; GDelConsumer (bs "c2")] in
+              GRead 9 (bs "c1") None false; GDelConsumer (bs "c2")] in
   match grun empty_stream new_group ops with
   | (s2, g2, log) =>
       log = [(bs "c1", (1, 0)); (bs "c1", (2, 0)); (bs "c2", (3, 0)); (bs "c1", (7, 0))] /\
